@@ -793,26 +793,30 @@ func c02(run *ev.Run, tier string) {
 					run.Violate("C02/"+f+"/architecture-table", map[string]any{"goarch": ga, "got": got, "documented": want})
 				}
 			}
-			// override verbatim
-			s = base()
-			s.Arch = ga
-			ov := "custom_" + ga
-			switch f {
-			case "deb":
-				s.Deb.Arch = ov
-			case "rpm":
-				s.RPM.Arch = ov
-			case "apk":
-				s.APK.Arch = ov
-			case "ipk":
-				s.IPK.Arch = ov
-			case "archlinux":
-				s.ArchL.Arch = ov
-			}
-			if p := buildDecode(s, f, "arch override "+ga); p != nil {
-				atomic.AddInt64(&cmps, 1)
-				if got := decodedArch(f, p); got != ov {
-					run.Violate("C02/"+f+"/architecture-override", map[string]any{"goarch": ga, "got": got, "want": ov})
+			// override verbatim - also when it is spelled like a GOARCH name of the table
+			for _, ov := range []string{"custom_" + ga, goarches[(archCells*7)%len(goarches)], ga} {
+				s = base()
+				s.Arch = "amd64"
+				if ov == ga {
+					s.Arch = "386"
+				}
+				switch f {
+				case "deb":
+					s.Deb.Arch = ov
+				case "rpm":
+					s.RPM.Arch = ov
+				case "apk":
+					s.APK.Arch = ov
+				case "ipk":
+					s.IPK.Arch = ov
+				case "archlinux":
+					s.ArchL.Arch = ov
+				}
+				if p := buildDecode(s, f, "arch override "+ov); p != nil {
+					atomic.AddInt64(&cmps, 1)
+					if got := decodedArch(f, p); got != ov {
+						run.Violate("C02/"+f+"/architecture-override", map[string]any{"goarch": s.Arch, "got": got, "want": ov})
+					}
 				}
 			}
 		}
